@@ -22,7 +22,7 @@ pub static DEF: PropDef = PropDef {
     real: &["ExecutionContext (set / get / clear / clone_with / borrow_with / take_with / new_with, guard Drop)", "Array / Map / TypedArray / TypedMap constructors", "Filter::execute / FilterValue::execute scheme binding", "context deserialisation"],
     stub: &["user functions and list matchers (harness plug-ins with fault points)", "byte source (FaultyReader)", "thread scheduler for the two-task phase"],
     assumptions: &["get_field_value / get_list_matcher with a foreign handle are documented-by-construction asserts and are not in the operation pool", "executing a filter that reads an unset mandatory field panics by design; probes run only when every mandatory field is set"],
-    required_probes: &["op.set_ok", "op.set_type_mismatch", "op.set_unknown", "op.set_twin", "op.exec_twin", "op.clear", "op.clone", "op.borrow", "op.take", "op.build_ok", "op.build_rejected", "op.deser", "unwind.guard", "unwind.clone", "unwind.clear", "unwind.closure", "unwind.into_value", "probe.two_tasks", "op.fail_burst"],
+    required_probes: &["op.set_ok", "op.set_type_mismatch", "op.set_unknown", "op.set_twin", "op.exec_twin", "op.clear", "op.clone", "op.borrow", "op.take", "op.build_ok", "op.build_rejected", "op.deser", "unwind.guard", "unwind.clone", "unwind.clear", "unwind.closure", "unwind.into_value", "probe.two_tasks", "op.fail_burst", "builder.refused"],
     extra: None,
 };
 
